@@ -41,8 +41,11 @@ def varint_len(z: int) -> int:
 
 @spec
 def pow2(k: int) -> int:
+    """2**k for k >= 0 (unfolds seven bits at a time, the step of varint decoding)"""
     if k <= 0:
         return 1
+    if k >= 7:
+        return 128 * pow2(k - 7)
     return 2 * pow2(k - 1)
 
 
@@ -101,3 +104,260 @@ def str_of_int(n: int) -> str:
 @opaque
 def hex_of(b: bytes) -> str:
     return b.hex()
+
+
+# ------------------------------------------------------------------- floats
+# In SMT a Python float is its IEEE-754 binary64 bit pattern (an Int in
+# [0, 2^64)); all arithmetic on floats is opaque.  The executable versions below
+# compute bit patterns without `struct`, so that the `struct` contract assumed
+# by the verifier is checked against an independent definition (vcheck axioms).
+import math
+
+
+def float_bits(x: float) -> int:
+    """IEEE-754 binary64 bit pattern of x (identity in SMT)"""
+    if x != x:
+        return 0x7FF8000000000000
+    sign = 1 if math.copysign(1.0, x) < 0 else 0
+    ax = abs(x)
+    if ax == 0.0:
+        return sign << 63
+    if ax == math.inf:
+        return (sign << 63) | (0x7FF << 52)
+    m, e = math.frexp(ax)          # ax = m * 2^e, 0.5 <= m < 1
+    e -= 1
+    if e >= -1022:                 # normal: 1.f * 2^e
+        frac = int((m * 2 - 1) * (1 << 52))
+        return (sign << 63) | ((e + 1023) << 52) | frac
+    frac = int(math.ldexp(ax, 1074))  # subnormal
+    return (sign << 63) | frac
+
+
+def float_from_bits(b: int) -> float:
+    sign = -1.0 if (b >> 63) & 1 else 1.0
+    e = (b >> 52) & 0x7FF
+    f = b & ((1 << 52) - 1)
+    if e == 0x7FF:
+        return sign * math.inf if f == 0 else math.nan
+    if e == 0:
+        return sign * math.ldexp(float(f), -1074)
+    return sign * math.ldexp(float((1 << 52) | f), e - 1075)
+
+
+@opaque
+def f_of_int(n: int) -> float:
+    return float(n)
+
+
+@opaque
+def f_int_fits_double(n: int) -> bool:
+    try:
+        float(n)
+        return True
+    except OverflowError:
+        return False
+
+
+@opaque
+def f_to_single(x: float) -> int:
+    """bit pattern of x rounded to IEEE-754 binary32 (round to nearest even)"""
+    b = float_bits(x)
+    sign = (b >> 63) & 1
+    e = (b >> 52) & 0x7FF
+    f = b & ((1 << 52) - 1)
+    if e == 0x7FF:
+        return (sign << 31) | (0xFF << 23) | ((1 << 22) if f else 0)
+    if e == 0 and f == 0:
+        return sign << 31
+    # value = m * 2^q with integer m
+    if e == 0:
+        m, q = f, -1074
+    else:
+        m, q = (1 << 52) | f, e - 1075
+    # target: integer significand s with value ~= s * 2^t
+    # normal single: s in [2^23, 2^24), t = E - 150 with E in [1, 254]; subnormal: t = -149
+    bl = m.bit_length()
+    t = q + bl - 24
+    if t < -149:
+        t = -149
+    shift = t - q
+    if shift <= 0:
+        s = m << (-shift)
+    else:
+        s = m >> shift
+        remd = m & ((1 << shift) - 1)
+        half = 1 << (shift - 1)
+        if remd > half or (remd == half and (s & 1)):
+            s += 1
+    if s >= (1 << 24):
+        s >>= 1
+        t += 1
+    if s < (1 << 23):
+        return (sign << 31) | s          # subnormal or zero (t == -149)
+    E = t + 150
+    if E >= 255:
+        return (sign << 31) | (0xFF << 23)
+    return (sign << 31) | (E << 23) | (s - (1 << 23))
+
+
+@opaque
+def f_of_single(b: int) -> float:
+    sign = -1.0 if (b >> 31) & 1 else 1.0
+    e = (b >> 23) & 0xFF
+    f = b & ((1 << 23) - 1)
+    if e == 0xFF:
+        return sign * math.inf if f == 0 else math.nan
+    if e == 0:
+        return sign * math.ldexp(float(f), -149)
+    return sign * math.ldexp(float((1 << 23) | f), e - 150)
+
+
+@opaque
+def f_fits_single(x: float) -> bool:
+    """struct.pack('<f', x) succeeds: x is nan/inf or rounds to a finite single"""
+    if x != x or abs(x) == math.inf:
+        return True
+    return ((f_to_single(x) >> 23) & 0xFF) != 0xFF
+
+
+@opaque
+def f_isfinite(x: float) -> bool:
+    return x == x and abs(x) != math.inf
+
+
+@opaque
+def f_trunc(x: float) -> int:
+    return int(x)
+
+
+@opaque
+def f_idiv(a: int, b: int) -> float:
+    return a / b
+
+
+@opaque
+def f_feq(a: float, b: float) -> bool:
+    return a == b
+
+
+@opaque
+def f_str_parses(s: str) -> bool:
+    try:
+        float(s)
+        return True
+    except ValueError:
+        return False
+
+
+@opaque
+def f_of_str(s: str) -> float:
+    return float(s)
+
+
+@opaque
+def f_neg(x: float) -> float:
+    return -x
+
+
+@spec
+def le_bytes8(b: int) -> bytes:
+    return bytes([b % 256, (b // 256) % 256, (b // 65536) % 256, (b // 16777216) % 256,
+                  (b // 4294967296) % 256, (b // 1099511627776) % 256,
+                  (b // 281474976710656) % 256, (b // 72057594037927936) % 256])
+
+
+@spec
+def le_bytes4(b: int) -> bytes:
+    return bytes([b % 256, (b // 256) % 256, (b // 65536) % 256, (b // 16777216) % 256])
+
+
+@spec
+def be_bytes4(b: int) -> bytes:
+    return bytes([(b // 16777216) % 256, (b // 65536) % 256, (b // 256) % 256, b % 256])
+
+
+@spec
+def double_bytes(x: float) -> bytes:
+    """Avro: IEEE-754 binary64, little-endian"""
+    return le_bytes8(float_bits(x))
+
+
+@spec
+def float_bytes(x: float) -> bytes:
+    """Avro: the value rounded to IEEE-754 binary32, little-endian"""
+    return le_bytes4(f_to_single(x))
+
+
+@opaque
+def crc32(b: bytes) -> int:
+    import binascii
+    return binascii.crc32(b) & 0xFFFFFFFF
+
+
+@spec
+def num_to_float(d: object) -> float:
+    """the float a number denotes when written under float/double (C01 normalisation)"""
+    if isinstance(d, float):
+        return d
+    return f_of_int(d)
+
+
+@spec
+def shr7(z: int, shift: int) -> int:
+    """z // 2**shift for shift a multiple of 7 (what is left of a varint's value after
+    shift/7 digits have been consumed)"""
+    if shift <= 0:
+        return z
+    return shr7(z, shift - 7) // 128
+
+
+# ------------------------------------------------------ assumed facts (axioms)
+from pyvc.specs import axiom
+from pyvc.contracts import implies
+
+
+@axiom("utf8")
+def ax_utf8_roundtrip(s: str) -> bool:
+    """str.encode() / bytes.decode() are inverse on encodable strings"""
+    return utf8_valid(utf8(s)) and utf8_decode(utf8(s)) == s
+
+
+@axiom("utf8_decode")
+def ax_utf8_decode_inverse(b: bytes) -> bool:
+    return implies(utf8_valid(b), utf8(utf8_decode(b)) == b)
+
+
+@axiom("f_of_single")
+def ax_single_roundtrip(b: int) -> bool:
+    """widening a binary32 pattern to binary64 and rounding back is the identity
+    (NaN payloads excepted: quiet bit) and always representable"""
+    return implies(0 <= b < 4294967296 and not f_single_is_nan(b),
+                   f_to_single(f_of_single(b)) == b and f_fits_single(f_of_single(b))
+                   and 0 <= float_bits(f_of_single(b)) < 18446744073709551616)
+
+
+@opaque
+def f_single_is_nan(b: int) -> bool:
+    return ((b >> 23) & 0xFF) == 0xFF and (b & 0x7FFFFF) != 0
+
+
+@opaque
+def le_value(b: bytes) -> int:
+    return int.from_bytes(b, "little")
+
+
+@axiom("le_bytes8")
+def ax_le8_value(b: int) -> bool:
+    return implies(0 <= b < 18446744073709551616, le_value(le_bytes8(b)) == b)
+
+
+@axiom("le_bytes4")
+def ax_le4_value(b: int) -> bool:
+    return implies(0 <= b < 4294967296, le_value(le_bytes4(b)) == b)
+
+
+@axiom("le_value")
+def ax_le_value_bytes(b: bytes) -> bool:
+    """every 4- or 8-byte string is the little-endian form of its value (bytes are 0..255)"""
+    return (implies(len(b) == 8, le_bytes8(le_value(b)) == b and 0 <= le_value(b) < 18446744073709551616)
+            and implies(len(b) == 4, le_bytes4(le_value(b)) == b and 0 <= le_value(b) < 4294967296))
